@@ -1411,7 +1411,7 @@ def _run_batch(ctx: Ctx, scenarios: list[dict], names: list[str | None], oracle_
     agg = {"stalls": 0, "f1_stalls": 0}
     for k in range(0, len(scenarios), CHUNK):
         chunk = scenarios[k:k + CHUNK]
-        results = pool.run_many(chunk, wall=WALL)
+        results = pool.run_many(chunk, wall=WALL, batch=max(4, min(25, -(-len(chunk) // 16))))
         reqs: list = []
         impls: list = []
         where: list = []
